@@ -951,6 +951,14 @@ def run(ctx: Ctx):
     for i in range(ctx.n(3000, 50000)):
         r = ctx.rng("soup", i)
         add_case(gen_soup(r), {}, "malformed")
+    # (2b) void elements in every mixture, exhaustively: each open-form void tag cancels exactly ONE later redundant end tag of its
+    # name (a multiset, not a set), a surplus end tag is a stray one (it still ends the text gathered so far)
+    import itertools as _it
+    for n in range(1, ctx.n(5, 6) + 1):
+        for seq in _it.product(["<br>", "</br>", "x", "<br/>"], repeat=n):
+            add_case("".join(seq), {}, "void-mixtures")
+    for seq in _it.product(["<hr>", "</hr>", "<br>", "</br>", " "], repeat=4):
+        add_case("a" + "".join(seq) + "b", {"void": ["hr", "br", "a"]} if len(set(seq)) % 2 else {}, "void-mixtures")
     # (3) option grid on written + malformed documents
     grid = []
     for dup in ("replace", "ignore", "acc"):
